@@ -205,7 +205,9 @@ def run_group(group, pid, tier):
     t0 = time.time()
     res = GroupResult(group)
     hdefs = {h["name"]: h for h in cfg.get("harness", [])}
-    wanted = [h["name"] for h in cfg.get("harness", []) if tier == "thorough" or h.get("tier", "quick") == "quick"]
+    # tier "manual": kept in the harness file, run by hand only (not part of any registered command)
+    wanted = [h["name"] for h in cfg.get("harness", [])
+              if h.get("tier", "quick") != "manual" and (tier == "thorough" or h.get("tier", "quick") == "quick")]
     htext = sha("".join(t for _, t in _harness_files(group)))[:12]
     key = tree_hash() + "-" + htext
     os.makedirs(SCRATCH_ROOT, exist_ok=True)
